@@ -58,6 +58,7 @@ inductive Origin (rd : RegionData) (rec : BioRecord) (g : BioFeature) : Prop
       (hb : bridgesOrigin f.loc = true) (l : Loc)
       (hl : offsetLocation f.loc (-rd.start) rec.length = .ok l)
       (hk : (wholeFix rec.length l).end ≤ (sliceSeq rec.seq rd.start rec.length ++ sliceSeq rec.seq 0 rd.end).length)
+      (hnb : bridgesOrigin (wholeFix rec.length l) = false)
       (hg : g = { f with loc := wholeFix rec.length l })
 
 theorem collectCross_mem (rd : RegionData) (L n : Int) :
@@ -83,7 +84,7 @@ theorem collectCross_mem (rd : RegionData) (L n : Int) :
 
 theorem crossStep_some (rd : RegionData) (L n : Int) (f p g : BioFeature) (h : crossStep rd L n f = .ok (p, some g)) :
     bridgesOrigin f.loc = true ∧ ∃ l, offsetLocation f.loc (-rd.start) L = .ok l ∧ (wholeFix L l).end ≤ n ∧
-      g = { f with loc := wholeFix L l } := by
+      bridgesOrigin (wholeFix L l) = false ∧ g = { f with loc := wholeFix L l } := by
   unfold crossStep at h
   split at h
   · rename_i hb
@@ -95,7 +96,7 @@ theorem crossStep_some (rd : RegionData) (L n : Int) (f p g : BioFeature) (h : c
       · rename_i hk
         injection h with h; injection h with h1 h2; injection h2 with h2
         simp only [Bool.or_eq_true, decide_eq_true_eq, not_or] at hk
-        exact ⟨hb, l, hl, by omega, h2.symm⟩
+        exact ⟨hb, l, hl, by omega, by simpa using hk.2, h2.symm⟩
   · injection h with h; injection h with h1 h2; cases h2
 
 theorem base_origin (rd : RegionData) (rec : BioRecord) (seq : List Char) (ws : List Working)
@@ -129,8 +130,8 @@ theorem base_origin (rd : RegionData) (rec : BioRecord) (seq : List Char) (ws : 
                 injection hg with hg; injection hg with hg1 hg2
                 subst hg2
                 obtain ⟨f, hf, p, hstep⟩ := collectCross_mem rd _ _ _ steps 0 w hs hw
-                obtain ⟨hb, l, hl, hk, hgf⟩ := crossStep_some rd _ _ f p w.f hstep
-                exact .cross f hf hc hb l hl hk hgf
+                obtain ⟨hb, l, hl, hk, hnb, hgf⟩ := crossStep_some rd _ _ f p w.f hstep
+                exact .cross f hf hc hb l hl hk hnb hgf
           · obtain ⟨g, hg1, rfl⟩ := List.mem_map.1 hw
             obtain ⟨g0, hg0, hoff⟩ := mapE_mem _ _ post hpost g hg1
             obtain ⟨f, hf, h1, h2, hgf⟩ := slice_from _ _ _ g0 hg0
